@@ -676,13 +676,39 @@ def run_prog_case(ctx, c, lines, pending):
     N = c['n'] * c['mc']
     lines.append(model_line(c, False, junk_vals(N)))
     lines.append(model_line(c, True, junk_vals(N)))
-    pending.append((c, desc, res))
+    # K aliased calls on the same element (solver-like iteration): the executed `aliasedCalls`
+    # of the model (theorem C10.history_invariant) vs the real operator
+    it = None
+    if plan.mid != 'lincombOp':
+        try:
+            y = make_elem(space, c['x'])
+            for _ in range(3):
+                c['P'](y, out=y)
+            it = ('ok', flat(y))
+        except Exception as e:  # noqa
+            it = ('err:{}'.format(type(e).__name__), None)
+    lines.append(model_line(c, True, junk_vals(N)) + ' iters=3')
+    pending.append((c, desc, res, it))
 
 
 def compare_model(ctx, pending, outs):
-    for k, (c, desc, res) in enumerate(pending):
+    for k, (c, desc, res, it) in enumerate(pending):
         plan = c['plan']
-        for alias, ans in ((False, outs[2 * k]), (True, outs[2 * k + 1])):
+        ans3 = outs[3 * k + 2]
+        if it is not None:
+            if it[0] != 'ok' or not ans3.startswith('ok '):
+                if not (it[0] != 'ok' and res['alias'][0] != 'ok'):
+                    ctx.disagree(dict(desc, iters=3), it[0], ans3[:120], stream='iterated-alias')
+            else:
+                f3 = dict(t.split('=', 1) for t in ans3.split()[1:])
+                if not same(parse_bl(f3['b0']), it[1], True if plan.tol else 1e-300) and \
+                        not same(parse_bl(f3['b0']), it[1], plan.tol):
+                    ctx.disagree(dict(desc, iters=3),
+                                 'x after 3 aliased calls = {}'.format([float(v) for v in it[1]][:8]),
+                                 'aliasedCalls 3 = {}'.format(parse_bl(f3['b0'])[:8]),
+                                 stream='iterated-alias')
+            ctx.hit('iterated-alias/{}/{}'.format(plan.mid, plan.flags or '-'))
+        for alias, ans in ((False, outs[3 * k]), (True, outs[3 * k + 1])):
             mode = 'alias' if alias else 'junk'
             if res[mode][0] != 'ok':
                 ctx.disagree(dict(desc, alias=alias), res[mode][0], ans[:200])
